@@ -19,6 +19,7 @@ import (
 	"github.com/aptpod/iscp-go/errors"
 	"github.com/aptpod/iscp-go/iscp"
 	"github.com/aptpod/iscp-go/message"
+	"github.com/aptpod/iscp-go/transport"
 	uuid "github.com/google/uuid"
 
 	"verif/internal/broker"
@@ -136,6 +137,21 @@ func targetKind(c *caseIn) string {
 	return ""
 }
 
+// slowStorage delays the first List after it has been armed (the drain loop of Upstream.Close
+// calls List between its deadline check and cond.Wait()).
+type slowStorage struct {
+	iscp.VerifSentStorage
+	armed atomic.Bool
+	d     time.Duration
+}
+
+func (s *slowStorage) List(ctx context.Context, id uuid.UUID) (map[uint32]iscp.DataPointGroups, error) {
+	if s.armed.CompareAndSwap(true, false) {
+		time.Sleep(s.d)
+	}
+	return s.VerifSentStorage.List(ctx, id)
+}
+
 type env struct {
 	c         *caseIn
 	fired     atomic.Bool
@@ -143,6 +159,8 @@ type env struct {
 	downAlias atomic.Uint32
 	streamID  uuid.UUID
 	lateAck   atomic.Bool // ScStateAfterLateAck: withhold the chunk ack, send it late
+	noAck     atomic.Bool // ScUpCloseSlowList: the broker never acknowledges chunks
+	deadDial  atomic.Bool // outage scenarios: every further dial fails
 }
 
 // act applies the case's behaviour to the exchange: normal = the cooperative answer, mis = the
@@ -211,7 +229,9 @@ func (e *env) handler(s *broker.Session, m message.Message) {
 					{SequenceNumber: v.StreamChunk.SequenceNumber, ResultCode: message.ResultCodeSucceeded, ResultString: "OK"}}})
 			}
 		}
-		if e.lateAck.Load() {
+		if e.noAck.Load() {
+			// silent broker
+		} else if e.lateAck.Load() {
 			go func() { time.Sleep(ms(e.c.DelayMs)); ack(v.StreamIDAlias)() }()
 		} else if e.hit("UpstreamChunk") {
 			e.act(s, ack(v.StreamIDAlias), ack(v.StreamIDAlias+77))
@@ -295,12 +315,22 @@ func runCase(c *caseIn) (o obs, direct string) {
 	e := &env{c: c, streamID: uuid.New()}
 	b := broker.New(e.handler)
 	defer b.Release()
+	b.OnDial = func(idx int, _ transport.DialConfig) error {
+		if e.deadDial.Load() {
+			return stderrors.New("verif: broker unreachable")
+		}
+		return nil
+	}
+	slow := &slowStorage{VerifSentStorage: iscp.VerifNewInmemSentStorage(), d: ms(c.OtherMs)}
+	connOpts := []iscp.ConnOption{iscp.WithConnPingInterval(ms(c.PingInt)), iscp.WithConnPingTimeout(ms(c.PingTo)), iscp.WithConnNodeID("node")}
+	if c.Scen == "ScUpCloseSlowList" {
+		connOpts = append(connOpts, iscp.VerifWithSentStorage(slow))
+	}
 
 	var conn *iscp.Conn
 	cl, _, es := guarded(setupWd, func() error {
 		var err error
-		conn, err = iscp.Connect(b.Address, broker.TransportName,
-			iscp.WithConnPingInterval(ms(c.PingInt)), iscp.WithConnPingTimeout(ms(c.PingTo)), iscp.WithConnNodeID("node"))
+		conn, err = iscp.Connect(b.Address, broker.TransportName, connOpts...)
 		return err
 	})
 	if cl != "ONil" {
@@ -494,6 +524,44 @@ func runCase(c *caseIn) (o obs, direct string) {
 		broker.WaitFor(time.Second, func() bool { return e.fired.Load() })
 		time.Sleep(ms(10))
 		call = func(ctx context.Context) error { closed = true; return conn.Close(ctx) }
+	case "ScCloseDuringOutage", "ScUpCloseDuringOutage":
+		if c.Scen == "ScUpCloseDuringOutage" {
+			if d := openUp(); d != "" {
+				return o, d
+			}
+			if d := writeFlush(); d != "" {
+				return o, d
+			}
+		}
+		// the broker dies and stays unreachable: every redial fails
+		e.deadDial.Store(true)
+		dials := b.DialCount.Load()
+		if c.Silent {
+			sess().Link.Sever(memtr.Silent)
+		} else {
+			sess().Link.Sever(memtr.Loud)
+		}
+		if !broker.WaitFor(2*time.Second, func() bool { return b.DialCount.Load() > dials }) {
+			return o, "harness: the client did not start redialling"
+		}
+		if c.Scen == "ScCloseDuringOutage" {
+			call = func(ctx context.Context) error { closed = true; return conn.Close(ctx) }
+		} else {
+			call = func(ctx context.Context) error { return up.Close(ctx) }
+			follow = func(ctx context.Context) error { closed = true; return conn.Close(ctx) }
+		}
+	case "ScUpCloseSlowList":
+		e.noAck.Store(true)
+		if d := openUp(); d != "" {
+			return o, d
+		}
+		call = func(ctx context.Context) error {
+			if err := up.WriteDataPoints(ctx, dataID, point()); err != nil {
+				return err
+			}
+			slow.armed.Store(true)
+			return up.Close(ctx)
+		}
 	default:
 		return o, "harness: unknown scenario " + c.Scen
 	}
@@ -564,7 +632,7 @@ func sig(c *caseIn, o obs) string {
 func retriable(c *caseIn, o obs) bool {
 	// a disconnect cell whose request is re-issued after the redial: the model predicts success
 	// when detection + redial fit into the deadline; on a loaded machine the redial can be late
-	if c.Beh != "BDisconnect" {
+	if c.Beh != "BDisconnect" || c.Scen == "ScCloseDuringOutage" || c.Scen == "ScUpCloseDuringOutage" {
 		return false
 	}
 	switch c.Scen {
@@ -652,6 +720,20 @@ func main() {
 				j.OtherMs = 1500
 				jobs = append(jobs, j)
 			}
+			// Close during an outage with failing redials (loud and silent death), connection and stream
+			for _, sc := range []string{"ScCloseDuringOutage", "ScUpCloseDuringOutage"} {
+				for _, silent := range []bool{false, true} {
+					j := mk(sc, "BDisconnect", 0, 200, 5000)
+					j.Silent = silent
+					jobs = append(jobs, j)
+				}
+			}
+			// Upstream.Close, ack withheld, close timeout (120) and context (200) both expire while sent.List (350 ms) runs
+			for _, lst := range []int{350, 500} {
+				j := mk("ScUpCloseSlowList", "BDrop", 0, 200, 120)
+				j.OtherMs = lst
+				jobs = append(jobs, j)
+			}
 		}
 	}
 	results := make([]coqfmt.Case, len(jobs))
@@ -710,7 +792,7 @@ func main() {
 		w.Count("beh:" + jobs[i].Beh)
 		w.Count("class:" + cs.Observed.(obs).Class)
 	}
-	rule := "every API scenario (open up/down, write, flush, read, read-metadata, metadata, call, call-and-wait, stream close up/down, conn close) x exchange position x broker behaviour {answer, delay 60 ms, drop, misaddress (reply for another request id / stream alias / call id / unsubscribed source node), disconnect (loud; thorough also silent)} with a context deadline of 100-300 ms, ping 20/40 ms, close timeout 5 s and 120 ms; plus request-after-close (former F5), State() after a late ack (former F13), Conn.Close while another request is in flight (F31). non-trivial = behaviour other than answer; distinct = distinct Coq case terms (durations included)"
+	rule := "every API scenario (open up/down, write, flush, read, read-metadata, metadata, call, call-and-wait, stream close up/down, conn close) x exchange position x broker behaviour {answer, delay 60 ms, drop, misaddress (reply for another request id / stream alias / call id / unsubscribed source node), disconnect (loud; thorough also silent)} with a context deadline of 100-300 ms, ping 20/40 ms, close timeout 5 s and 120 ms; plus Conn.Close and Upstream.Close during an outage with failing redials (loud / silent), Upstream.Close whose deadlines expire while the sent storage's List is in progress (slow storage), request-after-close (former F5), State() after a late ack (former F13), Conn.Close while another request is in flight (F31). non-trivial = behaviour other than answer; distinct = distinct Coq case terms (durations included)"
 	if err := w.Flush(*seed, *tier, rule, true, nil); err != nil {
 		fmt.Fprintln(os.Stderr, err)
 		os.Exit(2)
